@@ -5,6 +5,11 @@ HERE = os.path.dirname(os.path.dirname(os.path.abspath(__file__)))
 
 # id -> (engine, category, technique, level text, level note, design ref)
 CHECKS = {
+ "C07": ("faults", "fault_enumeration",
+   "fault enumeration over generated scenarios: every store call failing with each status of a set, cancellation after every number of polls, plus proptest combinations; snapshot/log invariant oracle",
+   "For each generated scenario (create / assert / U2F register with extensions, counters, lists, error-inducing options, suspending doubles) the harness first records the fault-free run, then enumerates completely (a) every fallible store call of that run failing with each of seven status bytes and (b) dropping the operation after every possible number of polls, and adds generated combinations of 2-3 faults with cancellation. Store snapshots and the store's call log decide: failed registration => store identical; cancelled registration => identical or plus exactly one complete record; success => the store accepted the save/the exact counter value first; failed/cancelled assertion => only the selected counter may have advanced by one; an injected save/update error never yields success.",
+   "suspension points are those reachable through the public traits (user validation, store calls), which are all the await points of these ceremonies; get_info cannot fail by its signature",
+   "DESIGN.md §4 C07"),
  "C09": ("ceremony", "exploration",
    "proptest-generated PRF ceremonies (client and CTAP2 level) against HMAC-SHA-256 built in the harness and a reference validator for malformed requests (reference-model oracle)",
    "Generated registrations and assertions over five authenticator configurations, verified/unverified users, stores with credentials holding no/gated/both secrets, inputs of any length and every evalByCredential key shape: each PRF result present must equal HMAC(k, salt) computed by the harness for a secret of exactly the credential created/used, with the gated secret only when the UV bit of that ceremony is set and always when verified during an assertion; per-credential inputs override defaults; enabled must equal 'secrets stored'; no capability means no output and no secret; every malformed class must be rejected with the stated error before any check_user/find/save call.",
